@@ -203,6 +203,8 @@ def catalogue():
                            'inc2.asm': [F('t'), NOP, R('_t')]}
     C['org-then-new-region'] = {'main.asm': [G('a'), Lc('x'), R('.x'), ('org', 0x40), G('b'), Lc('x'), NOP, R('.x')]}
     C['memzone-then-new-region'] = {'main.asm': [G('a'), Lc('x'), R('.x'), ('memzone', 'ZA'), G('b'), Lc('x'), NOP, R('.x')]}
+    C['memzone-same-zone-then-new-region'] = {'main.asm': [G('a'), Lc('x'), R('.x'), ('memzone', 'GLOBAL'), G('b'), Lc('x'), NOP, R('.x'),
+                                                           ('memzone', 'ZA'), G('c'), Lc('x'), ('memzone', 'ZA'), G('d'), Lc('x'), R('.x')]}
     C['constants-do-not-open-a-region'] = {'main.asm': [G('a'), Lc('x'), GC('c1', 'v1'), FC('c2', 'v2'), R('.x'), Lc('y'), R('.y'),
                                                         R('c1'), R('_c2')]}
     C['predefined-and-labels'] = {'main.asm': [G('a'), R('o0'), R('a')]}
@@ -210,6 +212,10 @@ def catalogue():
     C['rej:local-ref-from-other-region'] = {'main.asm': [G('a'), Lc('x'), NOP, G('b'), R('.x')]}
     C['rej:local-ref-after-org'] = {'main.asm': [G('a'), Lc('x'), NOP, ('org', 0x40), R('.x')]}
     C['rej:local-ref-after-memzone'] = {'main.asm': [G('a'), Lc('x'), NOP, ('memzone', 'ZA'), R('.x')]}
+    # a zone directive ends the region even if it re-selects the zone that is already current
+    C['rej:local-ref-after-memzone-same-zone'] = {'main.asm': [G('a'), Lc('x'), NOP, ('memzone', 'GLOBAL'), R('.x')]}
+    C['rej:local-ref-after-memzone-twice'] = {'main.asm': [('memzone', 'ZA'), G('a'), Lc('x'), NOP, ('memzone', 'ZA'), R('.x')]}
+    C['rej:local-def-after-memzone-same-zone'] = {'main.asm': [G('a'), NOP, ('memzone', 'GLOBAL'), Lc('x'), NOP]}
     C['rej:local-def-after-org'] = {'main.asm': [G('a'), NOP, ('org', 0x40), Lc('x'), NOP]}
     C['rej:local-before-any-label'] = {'main.asm': [Lc('x'), NOP, G('a')]}
     C['rej:file-label-from-includer'] = {'main.asm': [('include', 'inc.asm'), R('_t')], 'inc.asm': [F('t'), NOP]}
@@ -275,7 +281,7 @@ def random_arrangement(rnd):
                 nconst[0] += 1
                 its.append(GC(f'{tag}c{nconst[0]}', f'v{nconst[0]}'))
             elif r < 0.92 and fname == 'main.asm':
-                its.append(('org', 0x40 * rnd.randint(1, 3)))
+                its.append(('org', 0x40 * rnd.randint(1, 3)) if rnd.random() < 0.6 else ('memzone', rnd.choice(['GLOBAL', 'ZA'])))
                 have_region, used_local = False, set()
             else:
                 its.append(NOP)
